@@ -116,27 +116,50 @@ def rowSum (dblMin : K) (row : Fin N → K) : K := dblMin + sumFin N row
 def rowEntropy (logf : K → K) (dblMin : K) (dd row : Fin N → K) (beta : K) : K :=
   sumFin N (fun m => beta * (dd m * row m)) / rowSum dblMin row + logf (rowSum dblMin row)
 
+/-- `min_DD`: the smallest entry of the row over the OTHER samples (`DBL_MAX` start value, `0` when there is no other
+    sample), subtracted from every distance of the row when the source does so (regenerated flag): the normalised row
+    and its entropy are unchanged, `exp` no longer underflows before `beta` separates nearly equidistant neighbours -/
+def ddShift (dd : Fin N → K) (self : Fin N) : Fin N → K :=
+  if Gen.TsneOps.shiftByNearest then
+    let others := (List.finRange N).filter (· ≠ self)
+    match others with
+    | [] => dd
+    | a :: rest =>
+      let mn := rest.foldl (fun m j => if dd j < m then dd j else m) (dd a)
+      fun m => dd m - mn
+  else dd
+
 /-- dense overload of `computeGaussianPerplexity`: the returned `beta` of row `n` -/
 def betaDense (expf logf : K → K) (dblMin logPerp tol : K) (DD : Mat N N K) (n : Fin N) : BisState K :=
-  bisect (fun b => rowEntropy logf dblMin (DD n) (rowDense expf dblMin (DD n) n b) b) logPerp tol
+  let dd := ddShift (DD n) n
+  bisect (fun b => rowEntropy logf dblMin dd (rowDense expf dblMin dd n b) b) logPerp tol
 
 /-- dense overload of `computeGaussianPerplexity` (row-normalised conditional similarities) -/
 def gaussianPerplexityDense (expf logf : K → K) (dblMin logPerp tol : K) (DD : Mat N N K) : Mat N N K :=
   fun n =>
     let b := (betaDense expf logf dblMin logPerp tol DD n).beta
-    let row := rowDense expf dblMin (DD n) n b
+    let row := rowDense expf dblMin (ddShift (DD n) n) n b
     let s := rowSum dblMin row
     fun m => row m / s
+
+/-- K-NN overload: `distances[m+1] - distances[1]` (the nearest neighbour comes first) when the source shifts -/
+def knnShift (dist : Fin N → K) : Fin N → K :=
+  if Gen.TsneOps.shiftByNearest then
+    match (List.finRange N).head? with
+    | none => dist
+    | some i0 => fun m => dist m - dist i0
+  else dist
 
 /-- K-NN overload, one row: `dist` are `distances[1..K]` (the K entries after the query itself) -/
 def rowKnn (expf : K → K) (dist : Fin N → K) (beta : K) : Fin N → K := fun m => expf (-beta * dist m)
 
 def betaKnn (expf logf : K → K) (dblMin logPerp tol : K) (dist : Fin N → K) : BisState K :=
+  let dist := knnShift dist
   bisect (fun b => rowEntropy logf dblMin dist (rowKnn expf dist b) b) logPerp tol
 
 def gaussianRowKnn (expf logf : K → K) (dblMin logPerp tol : K) (dist : Fin N → K) : Fin N → K :=
   let b := (betaKnn expf logf dblMin logPerp tol dist).beta
-  let row := rowKnn expf dist b
+  let row := rowKnn expf (knnShift dist) b
   let s := rowSum dblMin row
   fun m => row m / s
 
